@@ -759,6 +759,24 @@ impl Server {
                             _ => {}
                         }
                         
+                        // The pub/sub handlers write their confirmations straight into the
+                        // connection's buffer: first queue the replies owed to the commands
+                        // that came before in this batch, so that replies stay in request order
+                        if matches!(command.as_str(), "SUBSCRIBE" | "UNSUBSCRIBE" | "PSUBSCRIBE" | "PUNSUBSCRIBE")
+                            && !responses.is_empty() {
+                            let owed = std::mem::take(&mut responses);
+                            self.connections.with_connection(id, |conn| {
+                                for response in &owed {
+                                    if let RespFrame::NoResponse = response {
+                                        continue;
+                                    }
+                                    if let Err(e) = conn.send_frame(response) {
+                                        eprintln!("Send error for connection {}: {}", id, e);
+                                    }
+                                }
+                            });
+                        }
+                        
                         // Handle QUIT command
                         if command == "QUIT" {
                             should_close = true;
